@@ -222,6 +222,10 @@ class C07Check(Check):
             if bad:
                 ctx.violate("unavailable-pair-selected", subj, f"cycle {t}: pairs {bad} are not available under candidates={cyc['cand']}, annotators={cyc['avail']} (available per row {A.sum(axis=1).tolist()})", cond)
                 break
+            n_rows_u0 = len(rows) if cyc["cand"] == "rows" else n
+            if ut is not None and np.asarray(ut).shape[1:] != (n_rows_u0, na):
+                ctx.violate("utilities-shape", subj, f"cycle {t}: utilities of shape {np.asarray(ut).shape}, expected (k, {n_rows_u0}, {na})", cond)
+                break
             if len(pairs) != want:
                 ctx.violate("wrong-count", subj, f"cycle {t}: {len(pairs)} pairs returned, min(batch_size={bs}, available pairs={n_avail})={want} expected (available per row {A.sum(axis=1).tolist()})", cond)
                 break
